@@ -435,6 +435,8 @@ JSON_TOKENS = ('{[t |-> "["], [t |-> "]"], [t |-> "{"], [t |-> "}"], [t |-> ","]
                '[t |-> "int", x |-> 1], [t |-> "real", n |-> 5, d |-> 2], %s, %s, [t |-> "garbage", text |-> "tru"]}' % (_s("a"), _s("b")))
 JSON_TOKENS_MARKERS = ('{[t |-> "["], [t |-> "]"], [t |-> ","], [t |-> "int", x |-> 1], %s}'
                        % ", ".join(_s(x) for x in ("nan", "nano", "na", "", "inf", "info", "-inf", "-infra", "-", "a")))    # longer than / proper prefixes of the markers
+# strings that hold U+0000 (written \\u0000 in the text): the value has the NUL and what follows it (s is only the model's name for them)
+JSON_TOKENS_MARKERS = JSON_TOKENS_MARKERS[:-1] + ', [t |-> "str", b |-> <<97, 0, 98>>, s |-> "a-NUL-b"], [t |-> "str", b |-> <<0>>, s |-> "NUL"]}'
 
 
 JSON_TOKENS_BIG = ('{[t |-> "["], [t |-> "]"], [t |-> ","], [t |-> "{"], [t |-> "}"], [t |-> ":"], %s, [t |-> "int", x |-> -1], [t |-> "real", n |-> 5, d |-> 2]} \\cup '
